@@ -256,7 +256,7 @@ func runCells(bin string, cells []g2Cell) *g2Result {
 			// G2h cell: outcomes are aggregated over endings / extensions; keys are derived in reportHandlers
 			ops := strings.Split(c.Hist, ";")
 			res.Outcomes[fmt.Sprintf("g2h:last=%s site=%s eff=%s prior=%s handler-ran=%v status=%d stderr=%v", ops[len(ops)-1], c.Site, c.Eff, c.Prior, strings.Contains(o.Stdout, hMarker), o.Status, strings.TrimSpace(o.Stderr) != "")] = true
-			res.HSeen = append(res.HSeen, hSeen{Cell: c, Obs: o, Clauses: judgeCell(e, c, o), Ran: strings.Contains(o.Stdout, hMarker)})
+			res.HSeen = append(res.HSeen, hSeen{Cell: c, Obs: o, Clauses: judgeCell(e, c, o), Ran: strings.Contains(o.Stdout, hMarker), Threw: strings.Contains(o.Stdout, "H:throws")})
 			continue
 		}
 		res.Outcomes[fmt.Sprintf("g2:%s/%s status=%d stderr=%v prior-on-stdout=%s", c.Ending, c.Prior, o.Status, strings.TrimSpace(o.Stderr) != "", flushed)] = true
@@ -352,6 +352,9 @@ func replayG2(cell g2Cell) *g2Result {
 	r := runCells(bin, []g2Cell{cell})
 	for _, s := range r.HSeen {
 		for _, cl := range s.Clauses {
+			if s.Ran && !s.Threw && cl != "flush" {
+				continue // a user handler consumed the throwable: control (see reportHandlers)
+			}
 			r.Fails = append(r.Fails, g2Fail{Cell: s.Cell, Obs: s.Obs, Class: "uncaught", Clause: cl})
 		}
 	}
